@@ -1,5 +1,8 @@
 use vstd::prelude::*;
 verus! {
+global size_of usize == 8;
+#[verifier::external_body]
+fn reject() ensures false { panic!() }
 
 // ---------------- trait: real text + spec members ----------------
 pub trait SegtreeItem<M = ()>: Sized {
@@ -16,6 +19,10 @@ pub trait SegtreeItem<M = ()>: Sized {
     proof fn law_clone(a: &Self, b: &Self) where Self: Clone
         requires cloned(*a, *b)
         ensures a.val() == b.val(), a.pend() == b.pend();
+    // the Default item is a left identity of op (needed by lower_bound) 
+    proof fn law_default_left_id(d: Self, x: Self::V) where Self: Default
+        requires call_ensures(<Self as Default>::default, (), d)
+        ensures Self::op(d.val(), x) == x;
     proof fn law_assoc(a: Self::V, b: Self::V, c: Self::V)
         ensures Self::op(Self::op(a, b), c) == Self::op(a, Self::op(b, c));
     proof fn law_act_id(v: Self::V)
@@ -451,6 +458,32 @@ proof fn lemma_mono_right<M, T: SegtreeItem<M>, F: Fn(&T) -> bool>(f: &F, c: T::
         assert(acc::<M, T>(c2, rs, a2, j2) == acc::<M, T>(c, s, a, ls.len() + j2));
     }
 }
+
+// ---------------- shape: the implicit tree over [0, n-1] fits into 2*p2 slots ----------------
+pub open spec fn is_pow2(c: int) -> bool decreases c { c == 1 || (c > 1 && c % 2 == 0 && is_pow2(c / 2)) }
+pub open spec fn fits(len: int, i: int, vl: int, vr: int) -> bool decreases vr - vl {
+    0 <= i < len && 0 <= vl <= vr && (vl < vr ==> fits(len, 2 * i + 1, vl, (vl + vr) / 2) && fits(len, 2 * i + 2, (vl + vr) / 2 + 1, vr))
+}
+proof fn lemma_fits(len: int, i: int, vl: int, vr: int, c: int)
+    requires 0 <= i, 0 <= vl <= vr, is_pow2(c), vr - vl + 1 <= c, (i + 2) * c - 2 < len
+    ensures fits(len, i, vl, vr)
+    decreases vr - vl
+{
+    assert(i < len) by(nonlinear_arith) requires (i + 2) * c - 2 < len, c >= 1, i >= 0;
+    if vl < vr {
+        let m = (vl + vr) / 2;
+        assert(c > 1);
+        assert((2 * i + 1 + 2) * (c / 2) - 2 < len) by(nonlinear_arith) requires (i + 2) * c - 2 < len, c % 2 == 0, c >= 2, i >= 0;
+        assert((2 * i + 2 + 2) * (c / 2) - 2 < len) by(nonlinear_arith) requires (i + 2) * c - 2 < len, c % 2 == 0, c >= 2, i >= 0;
+        lemma_fits(len, 2 * i + 1, vl, m, c / 2);
+        lemma_fits(len, 2 * i + 2, m + 1, vr, c / 2);
+    }
+}
+// every node of subtree i carries value v
+pub open spec fn sub_val<M, T: SegtreeItem<M>>(d: Seq<T>, i: int, v: T::V) -> bool {
+    forall|j: int| 0 <= j < d.len() && desc(i, j) ==> #[trigger] d[j].val() == v
+}
+pub open spec fn const_seq<A>(n: int, v: A) -> Seq<A> { Seq::new(n as nat, |k: int| v) }
 impl<M, T: SegtreeItem<M> + Clone> Segtree<T, M> {
     fn push_at(&mut self, i: usize)
         requires i * 2 + 2 < old(self).data.len(),
@@ -733,7 +766,236 @@ impl<M, T: SegtreeItem<M> + Clone> Segtree<T, M> {
         }
         out
     }
+
+    fn set_internal(&mut self, ind: usize, value: T, i: usize, vl: usize, vr: usize)
+        requires wf::<M, T>(old(self).data@, i as int, vl as int, vr as int), vl <= ind <= vr, vr < usize::MAX / 4,
+        ensures
+            wf::<M, T>(final(self).data@, i as int, vl as int, vr as int),
+            repr::<M, T>(final(self).data@, i as int, vl as int, vr as int)
+                == repr::<M, T>(old(self).data@, i as int, vl as int, vr as int).update(ind - vl, value.val()),
+            outside_same(old(self).data@, final(self).data@, i as int),
+            final(self).n == old(self).n,
+        decreases vr - vl
+    {
+        let ghost d0 = self.data@;
+        proof { lemma_repr_len::<M, T>(d0, i as int, vl as int, vr as int); assert(desc(i as int, i as int)); }
+        if vl == vr {
+            self.data[i] = value;
+            proof {
+                assert(repr::<M, T>(self.data@, i as int, vl as int, vr as int) =~= repr::<M, T>(d0, i as int, vl as int, vr as int).update(ind - vl, value.val()));
+            }
+            return;
+        }
+        proof { assert(wf::<M, T>(d0, 2 * i + 2, (vl + vr) / 2 + 1, vr as int)); }
+        self.push_at(i);
+        let ghost d1 = self.data@;
+        proof { lemma_push::<M, T>(d0, d1, i as int, vl as int, vr as int);
+            assert(desc(i as int, 2 * i + 1)); assert(desc(i as int, 2 * i + 2));
+            assert(outside_same(d0, d1, i as int)); }
+
+        let m = (vl + vr) / 2;
+        let ghost lrep = repr::<M, T>(d1, 2 * i + 1, vl as int, m as int);
+        let ghost rrep = repr::<M, T>(d1, 2 * i + 2, m as int + 1, vr as int);
+        proof {
+            lemma_repr_len::<M, T>(d1, 2 * i + 1, vl as int, m as int);
+            lemma_repr_len::<M, T>(d1, 2 * i + 2, m as int + 1, vr as int);
+        }
+        if ind <= m {
+            self.set_internal(ind, value, i * 2 + 1, vl, m);
+            proof {
+                lemma_child_changed::<M, T>(d1, self.data@, i as int, vl as int, vr as int, true);
+                lemma_outside_trans::<T>(d0, d1, self.data@, i as int, true);
+            }
+        } else {
+            self.set_internal(ind, value, i * 2 + 2, m + 1, vr);
+            proof {
+                lemma_child_changed::<M, T>(d1, self.data@, i as int, vl as int, vr as int, false);
+                lemma_outside_trans::<T>(d0, d1, self.data@, i as int, false);
+            }
+        }
+        let ghost d3 = self.data@;
+        self.merge_at(i);
+        proof {
+            lemma_merge::<M, T>(d3, self.data@, i as int, vl as int, vr as int);
+            assert(outside_same(d0, self.data@, i as int));
+            assert(repr::<M, T>(self.data@, i as int, vl as int, vr as int) =~= (lrep + rrep).update(ind - vl, value.val()));
+        }
+    }
+
+    // ---------------- public wrappers (C01) ----------------
+    pub open spec fn inv(&self) -> bool {
+        1 <= self.n < usize::MAX / 4 && wf::<M, T>(self.data@, 0, 0, self.n - 1)
+    }
+    pub open spec fn view(&self) -> Seq<T::V> { repr::<M, T>(self.data@, 0, 0, self.n - 1) }
+
+    pub fn set(&mut self, ind: usize, value: T)
+        requires old(self).inv(),
+        ensures final(self).inv(), ind < old(self).n, final(self).n == old(self).n,
+            final(self).view() == old(self).view().update(ind as int, value.val()),
+    {
+        if !(ind < self.n) { reject(); }
+        self.set_internal(ind, value, 0, 0, self.n - 1);
+    }
+
+    pub fn ask(&mut self, l: usize, r: usize) -> (res: T)
+        requires old(self).inv(),
+        ensures final(self).inv(), l <= r < old(self).n, final(self).n == old(self).n,
+            final(self).view() == old(self).view(),
+            res.val() == fold::<M, T>(old(self).view().subrange(l as int, r + 1)),
+    {
+        if !(l <= r) { reject(); }
+        if !(r < self.n) { reject(); }
+        self.ask_internal(l, r, 0, 0, self.n - 1)
+    }
+
+    pub fn modify(&mut self, l: usize, r: usize, md: &M)
+        requires old(self).inv(),
+        ensures final(self).inv(), l <= r < old(self).n, final(self).n == old(self).n,
+            final(self).view() == apply_range::<M, T>(old(self).view(), l as int, r as int, T::mview(md)),
+    {
+        if !(l <= r) { reject(); }
+        if !(r < self.n) { reject(); }
+        self.modify_internal(l, r, md, 0, 0, self.n - 1)
+    }
+
+    pub fn new_raw(n: usize, value: T) -> (res: Self)
+        requires n < usize::MAX / 8,
+        ensures n != 0, res.n == n, fits(res.data@.len() as int, 0, 0, n - 1), sub_val::<M, T>(res.data@, 0, value.val()),
+    {
+        if !(n != 0) { reject(); }
+        let mut p2: usize = 1;
+        while p2 < n
+            invariant is_pow2(p2 as int), p2 < 2 * n, n < usize::MAX / 8,
+            decreases 2 * n - p2,
+        {
+            p2 *= 2;
+        }
+        let res = Self {
+            n,
+            data: vec![value; p2 * 2],
+            phantom: std::marker::PhantomData,
+        };
+        proof {
+            lemma_fits(res.data@.len() as int, 0, 0, n - 1, p2 as int);
+            assert forall|j: int| 0 <= j < res.data@.len() implies #[trigger] res.data@[j].val() == value.val() by {
+                T::law_clone(&value, &res.data@[j]);
+            }
+        }
+        res
+    }
+
+    fn rebuild_empty(&mut self, i: usize, l: usize, r: usize)
+        requires fits(old(self).data@.len() as int, i as int, l as int, r as int), r < usize::MAX / 4,
+        ensures
+            wf::<M, T>(final(self).data@, i as int, l as int, r as int),
+            forall|v: T::V| sub_val::<M, T>(old(self).data@, i as int, v) ==> repr::<M, T>(final(self).data@, i as int, l as int, r as int) == const_seq((r - l + 1) as int, v),
+            outside_same(old(self).data@, final(self).data@, i as int),
+            final(self).n == old(self).n,
+        decreases r - l
+    {
+        let ghost d0 = self.data@;
+        proof { assert(desc(i as int, i as int)); }
+        if l == r {
+            proof {
+                assert forall|v: T::V| sub_val::<M, T>(d0, i as int, v) implies repr::<M, T>(d0, i as int, l as int, r as int) == const_seq((r - l + 1) as int, v) by {
+                    assert(repr::<M, T>(d0, i as int, l as int, r as int) =~= const_seq((r - l + 1) as int, v));
+                }
+            }
+            return;
+        }
+        let m = (l + r) / 2;
+        proof { assert(fits(d0.len() as int, 2 * i + 2, (l + r) / 2 + 1, r as int)); assert(fits(d0.len() as int, 2 * i + 1, l as int, (l + r) / 2));
+            assert(d0.len() == self.data.len() as int); }
+        self.rebuild_empty(i * 2 + 1, l, m);
+        let ghost d1 = self.data@;
+        self.rebuild_empty(i * 2 + 2, m + 1, r);
+        let ghost d2 = self.data@;
+        proof {
+            assert forall|j: int| 0 <= j < d1.len() && desc(2 * i + 1, j) implies d1[j] == d2[j] by { if desc(2 * i + 2, j) { lemma_desc_disjoint(i as int, j); } }
+            lemma_frame::<M, T>(d1, d2, 2 * i + 1, l as int, m as int);
+            lemma_repr_len::<M, T>(d2, 2 * i + 1, l as int, m as int);
+            lemma_repr_len::<M, T>(d2, 2 * i + 2, m as int + 1, r as int);
+        }
+
+        let (left, right) = self.data.split_at_mut(i * 2 + 1);
+        left[i].update(&right[0], &right[1]);
+        proof {
+            lemma_merge::<M, T>(d2, self.data@, i as int, l as int, r as int);
+            assert(outside_same(d0, self.data@, i as int)) by {
+                assert forall|j: int| 0 <= j < d0.len() && !desc(i as int, j) implies d0[j] == self.data@[j] by {
+                    if desc(2 * i + 1, j) { lemma_desc_child(i as int, j); }
+                    if desc(2 * i + 2, j) { lemma_desc_child(i as int, j); }
+                }
+            }
+            assert forall|v: T::V| sub_val::<M, T>(d0, i as int, v) implies repr::<M, T>(self.data@, i as int, l as int, r as int) == const_seq((r - l + 1) as int, v) by {
+                assert(sub_val::<M, T>(d0, 2 * i + 1, v)) by { assert forall|j: int| 0 <= j < d0.len() && desc(2 * i + 1, j) implies #[trigger] d0[j].val() == v by { lemma_desc_child(i as int, j); } }
+                assert(sub_val::<M, T>(d1, 2 * i + 2, v)) by {
+                    assert forall|j: int| 0 <= j < d1.len() && desc(2 * i + 2, j) implies #[trigger] d1[j].val() == v by {
+                        lemma_desc_child(i as int, j);
+                        if desc(2 * i + 1, j) { lemma_desc_disjoint(i as int, j); }
+                        assert(d0[j] == d1[j]);
+                    }
+                }
+                assert(repr::<M, T>(self.data@, i as int, l as int, r as int) =~= const_seq((r - l + 1) as int, v));
+            }
+        }
+    }
+
+    pub fn new(n: usize, value: T) -> (res: Self)
+        requires n < usize::MAX / 8,
+        ensures res.inv(), res.n == n, res.view() == const_seq(n as int, value.val()),
+    {
+        let mut res = Self::new_raw(n, value);
+        res.rebuild_empty(0, 0, res.n - 1);
+        res
+    }
 }
 
+
+// predicate holds on the aggregate of view[l..=r]
+pub open spec fn sat_at<M, T: SegtreeItem<M>, F: Fn(&T) -> bool>(f: &F, s: Seq<T::V>, l: int, r: int) -> bool {
+    psat::<M, T, F>(f, fold::<M, T>(s.subrange(l, r + 1)))
+}
+impl<M, T: SegtreeItem<M> + Clone + Default> Segtree<T, M> {
+    /// Returns smallest r from `[l; n-1]` such that `f(ask(l, r)) == true`, or None if it's always false
+    pub fn lower_bound<F>(&mut self, l: usize, f: F) -> (res: Option<usize>)
+    where
+        F: Fn(&T) -> bool,
+        requires old(self).inv(), l < old(self).n, fdet::<M, T, F>(&f),
+            // monotone along growing ranges starting at l
+            forall|r1: int, r2: int| l <= r1 <= r2 < old(self).n && #[trigger] sat_at::<M, T, F>(&f, old(self).view(), l as int, r1)
+                ==> #[trigger] sat_at::<M, T, F>(&f, old(self).view(), l as int, r2),
+        ensures final(self).inv(), final(self).view() == old(self).view(), final(self).n == old(self).n,
+            match res {
+                Some(k) => l <= k < old(self).n && sat_at::<M, T, F>(&f, old(self).view(), l as int, k as int)
+                    && forall|j: int| l <= j < k ==> !#[trigger] sat_at::<M, T, F>(&f, old(self).view(), l as int, j),
+                None => forall|j: int| l <= j < old(self).n ==> !#[trigger] sat_at::<M, T, F>(&f, old(self).view(), l as int, j),
+            },
+    {
+        let ghost s = self.view();
+        let d = T::default();
+        proof {
+            lemma_repr_len::<M, T>(self.data@, 0, 0, self.n - 1);
+            assert forall|j: int| l <= j < s.len() implies #[trigger] acc::<M, T>(d.val(), s, l as int, j) == fold::<M, T>(s.subrange(l as int, j + 1)) by {
+                lemma_fold_concat::<M, T>(seq![d.val()], s.subrange(l as int, j + 1));
+                T::law_default_left_id(d, fold::<M, T>(s.subrange(l as int, j + 1)));
+            }
+            assert(mono::<M, T, F>(&f, d.val(), s, l as int)) by {
+                assert forall|j1: int, j2: int| l <= j1 <= j2 < s.len() && psat::<M, T, F>(&f, acc::<M, T>(d.val(), s, l as int, j1)) implies psat::<M, T, F>(&f, acc::<M, T>(d.val(), s, l as int, j2)) by {
+                    assert(sat_at::<M, T, F>(&f, s, l as int, j1));
+                    assert(sat_at::<M, T, F>(&f, s, l as int, j2));
+                }
+            }
+        }
+        let out = self.lower_bound_internal(d, &f, l, self.n - 1, 0, 0, self.n - 1);
+        proof {
+            assert forall|j: int| l <= j < s.len() implies sat_at::<M, T, F>(&f, s, l as int, j) == psat::<M, T, F>(&f, acc::<M, T>(d.val(), s, l as int, j)) by {
+                assert(acc::<M, T>(d.val(), s, l as int, j) == fold::<M, T>(s.subrange(l as int, j + 1)));
+            }
+        }
+        out
+            .1
+    }
+}
 } // verus!
 fn main() {}
